@@ -180,18 +180,19 @@ static void history_case (vf_rng *rng)
 }
 
 /* ---------------- exhaustive small scope: all regions on a 4x3 grid ---------------- */
-#define GW 4
-#define GH 3
-#define NG (1 << (GW * GH))
-static pixman_region32_t g32[NG];
-static pixman_region16_t g16[NG];
-static struct { int n; rect_t r[GW * GH]; } gcanon[NG];
+#define GWMAX 4
+#define GHMAX 3
+#define NGMAX (1 << (GWMAX * GHMAX))
+static int GW = 4, GH = 3, NG = NGMAX;        /* 4x3 in the thorough tier, 3x3 (config 'exhaustive3x3') in the quick tier */
+static pixman_region32_t g32[NGMAX];
+static pixman_region16_t g16[NGMAX];
+static struct { int n; rect_t r[GWMAX * GHMAX]; } gcanon[NGMAX];
 static void grid_init (void)
 {
     for (int m = 0; m < NG; m++) {
-        uint8_t bits[GH][GW]; rect_t ext;
+        uint8_t bits[GHMAX][GWMAX]; rect_t ext; memset (bits, 0, sizeof bits);
         for (int j = 0; j < GH; j++) for (int i = 0; i < GW; i++) bits[j][i] = (m >> (j * GW + i)) & 1;
-        gcanon[m].n = canonical_generic (&bits[0][0], GW, GW, GH, gcanon[m].r, &ext);
+        gcanon[m].n = canonical_generic (&bits[0][0], GWMAX, GW, GH, gcanon[m].r, &ext);
         pixman_box32_t b32[12]; pixman_box16_t b16[12];
         for (int k = 0; k < gcanon[m].n; k++) {
             rect_t *r = &gcanon[m].r[k];
@@ -217,14 +218,14 @@ static void grid_init (void)
             if (same_ && !RP_ (selfcheck) (reg)) same_ = 0;                                               \
             nev++;                                                                                       \
             if (!same_) { char key_[100]; snprintf (key_, sizeof key_, "C06:noncanonical:%s:%d:exhaustive", opname, W); \
-                vf_violation (key_, "4x3 grid: %s(%s) A=%03x B=%03x result mask %03x: list is not canonical (%d rects, want %d)", opname, alias, a, b, mask, n_, gcanon[mask].n); } \
+                vf_violation (key_, "grid: %s(%s) A=%03x B=%03x result mask %03x: list is not canonical (%d rects, want %d)", opname, alias, a, b, mask, n_, gcanon[mask].n); } \
         }                                                                                                \
         if (FOCUS ("C05")) {                                                                             \
             for (int j_ = 0; j_ < GH; j_++) for (int i_ = 0; i_ < GW; i_++) {                            \
                 int got_ = RP_ (contains_point) (reg, (int)win_x + i_, (int)win_y + j_, NULL) != 0; nev++; \
                 if (got_ != ((mask >> (j_ * GW + i_)) & 1)) {                                            \
                     char key_[100]; snprintf (key_, sizeof key_, "C05:membership:%s:%d:exhaustive", opname, W); \
-                    vf_violation (key_, "4x3 grid: %s(%s) A=%03x B=%03x: cell (%d,%d) membership wrong", opname, alias, a, b, i_, j_); \
+                    vf_violation (key_, "grid: %s(%s) A=%03x B=%03x: cell (%d,%d) membership wrong", opname, alias, a, b, i_, j_); \
                     j_ = GH; break; }                                                                    \
             }                                                                                            \
         }                                                                                                \
@@ -361,8 +362,8 @@ static void region_case (long idx, vf_rng *rng)
 
 static void init (void)
 {
-    exhaustive_mode = !strcmp (vf.config, "exhaustive");
-    if (exhaustive_mode) { win_x = -2; win_y = 7; grid_init (); }
+    exhaustive_mode = !strncmp (vf.config, "exhaustive", 10);
+    if (exhaustive_mode) { if (!strcmp (vf.config, "exhaustive3x3")) { GW = 3; GH = 3; NG = 1 << 9; } win_x = -2; win_y = 7; grid_init (); }
 }
 
 int main (int argc, char **argv) { return vf_main (argc, argv, "C05", init, region_case, NULL); }
